@@ -26,6 +26,8 @@ structure MSt where
   xOpen     : List String := []      -- additional sources (k ≥ 2) whose plugin is open
   openedInCall : List String := []   -- plugins opened since the last c:start ("1" = the primary source)
   runWriteFailed : Bool := false     -- an UpdateStatus(Running) failed during the user's Start call
+  nestedFlight : Bool := false       -- a nested Start logged "starting pipeline", no StatusRunning write since
+  startLogs : Nat := 0               -- "starting pipeline" lines seen during the user's current Start call
   nestedInCall : Bool := false       -- a recovery's nested Start began during the user's Start call
   lastStatus : String := "user"
   lastRecAt : Option Nat := none     -- time of the last S:rec:ok not yet followed by a nested start
@@ -46,7 +48,10 @@ def posOk (written : List String) (q : Nat) : Bool :=
 def stepM (isV2 : Bool) (minD maxD : Nat) (m : MSt) (t : Tok) : MSt :=
   let (tok, ms) := t
   match tok.splitOn ":" with
-  | ["c", "start"] => { m with userStartPending := true, openedInCall := [], nestedInCall := false, runWriteFailed := false }
+  | ["c", "start"] =>
+    -- a recovery's nested Start that has logged "starting" and not yet written Running overlaps this call
+    { m with userStartPending := true, openedInCall := [], nestedInCall := m.nestedFlight, runWriteFailed := false,
+             startLogs := 0 }
   | ["r", "start", "err"] =>
     -- C11 "once a run has ended its connectors … are released": a Start that failed must have torn down
     -- every plugin it opened (v2 runPipeline rollback; in v1 Start returns before the nodes open)
@@ -85,14 +90,18 @@ def stepM (isV2 : Bool) (minD maxD : Nat) (m : MSt) (t : Tok) : MSt :=
     else { m with userStop := false, sysStop := false, injSince := true }
   | ["OF"] => { m with injSince := true }
   | ["L", "starting"] =>
-    if m.userStartPending then
+    if m.userStartPending ∧ m.startLogs ≥ 1 then
+      -- a second "starting pipeline" inside one user Start call: the user's Start and a recovery's nested
+      -- Start overlap (which of the two lines is whose cannot be told)
+      { m with nestedInCall := true, startLogs := m.startLogs + 1 }
+    else if m.userStartPending then
       -- the user's Start passed its status check: a new epoch
-      { m with stopped := false, forced := false, forcedDeg := false, forcePending := false,
+      { m with startLogs := 1, stopped := false, forced := false, forcedDeg := false, forcePending := false,
                userStop := false, sysStop := false, fatalInj := false, fatalSeenStatus := false,
                restarts := [], lastRecAt := none, injSince := false }
     else
       -- a recovery restart
-      let m := { m with nestedInCall := true }
+      let m := { m with nestedInCall := true, nestedFlight := true }
       let m := if m.stopped then flag m "restart-after-stop" else m
       let m := if m.fatalInj then flag m "restart-after-fatal" else m
       let m := match m.lastRecAt with
@@ -108,6 +117,7 @@ def stepM (isV2 : Bool) (minD maxD : Nat) (m : MSt) (t : Tok) : MSt :=
   | ["L", "backoff"] => { m with lastBoAt := some ms }
   | ["S", st, res] =>
     let m := if st = "run" ∧ res = "fail" then { m with runWriteFailed := true } else m
+    let m := if st = "run" ∨ st = "deg" then { m with nestedFlight := false } else m
     let m := if res = "ok" then { m with lastStatus := st } else m
     let m := if st = "rec" ∧ res = "ok" then { m with lastRecAt := some ms } else m
     let m := if m.fatalInj ∧ !m.fatalSeenStatus ∧ st ≠ "run" then
